@@ -2,7 +2,7 @@
    (core/_files.py interpDimension, cmaqfiles/_ioapi.py interpSigma).
    Exact model over Z: coordinates are integers in a dyadic unit; a weight column is a list
    of numerators over one common positive denominator.  No proofs here. *)
-From PNC Require Import Base.Util.
+From PNC Require Import Base.Util Gen.InterpSrc.
 Local Open Scope Z_scope.
 
 Fixpoint diffs (l : list Z) : list Z :=
@@ -29,11 +29,15 @@ Fixpoint hat (x : Z) (xs : list Z) : list Z * Z :=
   | _ => ([], 0)
   end.
 
-(* one column of getinterpweights(xs, nxs, extrapolate=...) ; None = a column of NaN
-   (single source level).  interp1d sorts a descending xs first. *)
-Definition impl_weights (extrap : bool) (xs : list Z) (x : Z) : option (list Z * Z) :=
+(* one column of getinterpweights(xs, nxs, extrapolate=...) ; None = a column of NaN.
+   interp1d sorts a descending xs first.  A single source level: NaN weights from interp1d,
+   unless the source has the guard `if np.size(xs) == 1: return np.ones(...)` — which of the
+   two the code does is read off the source on every run (Gen.InterpSrc.single_level_ones). *)
+Definition impl_weights_gen (one_level_ones : bool) (extrap : bool) (xs : list Z) (x : Z)
+  : option (list Z * Z) :=
   match xs with
-  | [] | [_] => None
+  | [] => None
+  | [_] => if one_level_ones then Some ([1], 1) else None
   | _ =>
     let dsc := desc xs in
     let (w0, d) := hat x (if dsc then rev xs else xs) in
@@ -41,6 +45,7 @@ Definition impl_weights (extrap : bool) (xs : list Z) (x : Z) : option (list Z *
     if extrap then Some (w, d)
     else let c := map (Z.max 0) w in Some (c, sumZ c)     (* maximum(0, w); w /= w.sum(0) *)
   end.
+Definition impl_weights := impl_weights_gen single_level_ones.
 
 (* application along a dimension: (weights * data[:, None]).sum(0), numerator over the same
    denominator *)
